@@ -77,6 +77,7 @@ type E7Spec struct {
 	PathPattern   []FuncRuleSpec     `json:"path_as_pattern"`
 	FreshRecord   []FreshRecordSpec  `json:"fresh_record"`
 	CopiedRecord  []CopiedRecordSpec `json:"copied_record"`
+	TrimmedLength []FuncRuleSpec     `json:"trimmed_length"`
 }
 
 type FuncRuleSpec struct {
@@ -289,6 +290,9 @@ func runE7(p *Program, sp *Spec, c *Collector) {
 	}
 	for _, cr := range t.CopiedRecord {
 		runCopiedRecord(p, c, cr)
+	}
+	for _, tl := range t.TrimmedLength {
+		runTrimmedLength(p, c, tl)
 	}
 	for _, n := range t.NoExit {
 		runNoExit(p, sp, c, n)
